@@ -23,7 +23,8 @@ import (
 // Readers use metrics that already exist while writers register new ones on the same scope.
 func c09RaceChild(args []string) {
 	mode, _ := strconv.Atoi(args[0])
-	rounds, _ := strconv.Atoi(args[1])
+	ms, _ := strconv.Atoi(args[1])
+	deadline := time.Now().Add(time.Duration(ms) * time.Millisecond)
 	log := &Log{}
 	opts := tally.ScopeOptions{OmitCardinalityMetrics: mode&2 == 0}
 	if mode&1 == 1 {
@@ -37,7 +38,7 @@ func c09RaceChild(args []string) {
 	if mode&4 == 4 {
 		root = tally.NewTestScope("t", map[string]string{"env": "x"})
 	} else {
-		root, closer = tally.VerifNewRootScope(opts, 0, 4)
+		root, closer = tally.VerifNewRootScope(opts, 0, uint(1+15*(mode&1))) // one shard (every derivation meets every other one) or sixteen
 	}
 	scope := root.SubScope("storm")
 	scope.Counter("steady").Inc(1)
@@ -51,7 +52,10 @@ func c09RaceChild(args []string) {
 		wg.Add(1)
 		go func() {
 			defer wg.Done()
-			for i := 0; i < rounds; i++ {
+			for i := 0; ; i++ {
+				if i%32 == 0 && time.Now().After(deadline) {
+					return
+				}
 				f(i)
 			}
 		}()
@@ -108,6 +112,29 @@ func c09RaceChild(args []string) {
 			sub.Timer(fmt.Sprintf("t%d", i%7)).Record(time.Microsecond)
 		})
 	}
+	// many live tagged scopes used all the time, and short-lived ones that are closed and never asked
+	// for again (the report pass drops them while the others are being looked up)
+	live := make([]map[string]string, 48)
+	for i := range live {
+		live[i] = map[string]string{"live": strconv.Itoa(i)}
+		scope.Tagged(live[i]).Counter("hits").Inc(1)
+	}
+	for g := 0; g < 3; g++ {
+		g := g
+		worker(func(i int) {
+			scope.Tagged(live[(i*7+g)%len(live)]).Counter("hits").Inc(1)
+		})
+	}
+	for g := 0; g < 2; g++ {
+		g := g
+		worker(func(i int) {
+			sc := scope.Tagged(map[string]string{"tmp": strconv.Itoa(g) + "-" + strconv.Itoa(i)})
+			sc.Counter("c").Inc(1)
+			if cl, ok := sc.(interface{ Close() error }); ok {
+				cl.Close()
+			}
+		})
+	}
 	// histograms whose bucket sets share an identity in the bucket cache, and new sets after them
 	worker(func(i int) {
 		switch i % 3 {
@@ -125,17 +152,19 @@ func c09RaceChild(args []string) {
 		rg.Add(1)
 		go func() {
 			defer rg.Done()
+			pass := 0
 			for {
 				select {
 				case <-stop:
 					return
 				default:
 				}
-				if ts, ok := root.(tally.TestScope); ok {
+				if ts, ok := root.(tally.TestScope); ok && (mode&4 == 4 || pass%8 == 7) {
 					ts.Snapshot()
 				} else {
 					tally.VerifReportOnce(root)
 				}
+				pass++
 				runtime.Gosched()
 			}
 		}()
@@ -177,18 +206,39 @@ func (nullH) DurationBucket(_, _ time.Duration) tally.CachedHistogramBucket   { 
 // c09RaceStorm runs the child once per mode and reports a dead child.
 func c09RaceStorm(ctx *Ctx, rounds int) { apiStorm(ctx, rounds, "scope_api_is_safe_for_concurrent_use") }
 
-func apiStorm(ctx *Ctx, rounds int, pred string) {
+func apiStorm(ctx *Ctx, ms int, pred string) {
+	type res struct {
+		mode int
+		out  string
+		err  error
+	}
+	var modes []int
 	for mode := 0; mode < 8; mode++ {
 		if mode&4 == 4 && mode&1 == 1 {
 			continue // a test scope has no reporter flavour
 		}
-		cs := map[string]interface{}{"api_storm_in_child_process": true, "mode": mode, "rounds": rounds}
+		modes = append(modes, mode)
+	}
+	results := make([]res, len(modes))
+	var wg sync.WaitGroup
+	for i, mode := range modes {
+		i, mode := i, mode
+		wg.Add(1)
+		go func() {
+			defer wg.Done()
+			cmd := exec.Command(os.Args[0], "child", "c09race", strconv.Itoa(mode), strconv.Itoa(ms))
+			cmd.Env = append(os.Environ(), "GOTRACEBACK=single")
+			out, err := cmd.CombinedOutput()
+			results[i] = res{mode, string(out), err}
+		}()
+	}
+	wg.Wait()
+	for _, r := range results {
+		mode := r.mode
+		cs := map[string]interface{}{"api_storm_in_child_process": true, "mode": mode, "rounds": ms}
 		ctx.Case(cs, "", "api-storm-in-child-process", "")
-		cmd := exec.Command(os.Args[0], "child", "c09race", strconv.Itoa(mode), strconv.Itoa(rounds))
-		cmd.Env = append(os.Environ(), "GOTRACEBACK=single")
-		out, err := cmd.CombinedOutput()
-		if err != nil {
-			txt := string(out)
+		if r.err != nil {
+			txt := r.out
 			if len(txt) > 2500 {
 				txt = txt[:2500]
 			}
@@ -200,8 +250,8 @@ func apiStorm(ctx *Ctx, rounds int, pred string) {
 				}
 			}
 			ctx.Fail(pred,
-				fmt.Sprintf("7 goroutines using existing metrics, registering new ones, closing and re-obtaining a subscope and creating histograms with colliding bucket sets on one scope (mode %d: cached=%v, passes/snapshots=%v, test scope=%v): %s (%v)",
-					mode, mode&1 == 1, mode&2 == 2, mode&4 == 4, what, err), cs, txt)
+				fmt.Sprintf("12 goroutines using existing metrics and scopes, registering new ones, closing and re-obtaining subscopes and creating histograms with colliding bucket sets on one scope for %d ms (mode %d: cached=%v, passes/snapshots=%v, test scope=%v): %s (%v)",
+					ms, mode, mode&1 == 1, mode&2 == 2, mode&4 == 4, what, r.err), cs, txt)
 			return
 		}
 	}
